@@ -292,7 +292,7 @@ API_CHECKS = {
     "C06": [("plain", "frames", "C06", 6, 8)],
     "C07": [("plain", "c07", "C07", 6, 9)],
     "C08": [("plain", "frames", "C08", 6, 8)],
-    "C09": [("plain", "params", "C09", 3, 5)],
+    "C09": [("plain", "params", "C09", 3, 4)],
     "C10": [("plain", "mut", "C10", 6, 8), ("plain", "c07", "C10", 6, 8), ("plain", "params", "C10", 3, 4)],
     "C11": [("plain", "lookup", "C11", 6, 9)],
     "C01": [("plain", "build", "C01", 4, 6)],
